@@ -765,7 +765,7 @@ func ssRunPool(base string, n int, jobs []*ssPJob, done func(i int, j *ssPJob, r
 
 // ssRunAlone runs one job in a fresh child of its own (which lingers 300 ms before exiting).
 func ssRunAlone(base string, j *ssPJob) ssResult {
-	root := filepath.Join(base, "alone")
+	root := filepath.Join(base, "w99") // same length as the pool roots: frame offsets of a replayed case stay the same
 	p, err := ssSpawn(root, true)
 	if err != nil {
 		return ssResult{Crash: true, Stderr: "spawn: " + err.Error()}
@@ -837,9 +837,9 @@ func (j *ssPJob) input() ssInput { return ssInput{j.Cfg, j.Prog, j.Mut, j.End} }
 
 // ssCollector turns job results into the lib.Result: findings, crashes (confirmed alone), timeouts.
 type ssCollector struct {
-	r       *lib.Result
-	base    string
-	jobs    []*ssPJob
+	r        *lib.Result
+	base     string
+	jobs     []*ssPJob
 	crashed  []int
 	prevOf   map[int]int
 	stderrOf map[int]string
